@@ -55,6 +55,12 @@ theorem pad1_frame (σ : Store) (d w : Var) (fill : Str) (f : Char → AStr) (h 
   · exact commit_frame σ d w _ h
   · rfl
 
+theorem piece_frame (σ : Store) (d w : Var) (o : Option AStr) (h : w ≠ d) :
+    ((σ.piece d o).1).get? w = σ.get? w := by
+  cases o with
+  | some p => exact commit_frame σ d w p h
+  | none => rfl
+
 /-- **Frame theorem**: an operation leaves every variable it does not write exactly as it was —
     arguments (the right operand of `+`/`+=`, the replacement of `replace`, the source of a copy,
     slice, pad …) are never modified and results share nothing with their sources. -/
@@ -91,6 +97,22 @@ theorem step_frame (σ : Store) (op : Op) (w : Var) (h : w ∉ op.writes) :
   case find src a st en rev =>
     refine withVal_frame σ src w _ (fun x => ?_)
     split <;> rfl
+  case zfill d src wd => exact withVal_frame σ src w _ (fun x => commit_frame σ d w _ h)
+  case clip d src a b => exact withVal_frame σ src w _ (fun x => commit_frame σ d w _ h)
+  case join d vs =>
+    split
+    · exact commit_frame σ d w _ h
+    · rfl
+  case fmatch v a spans count => exact withVal_frame σ v w _ (fun x => fromExcept_frame σ v w _ h)
+  case unfmatch v a spans count => exact withVal_frame σ v w _ (fun x => fromExcept_frame σ v w _ h)
+  case splitPiece d src sep m r j =>
+    refine withVal_frame σ src w _ (fun x => ?_)
+    split
+    · exact piece_frame σ d w _ h
+    · rfl
+  case linePiece d src ke j => exact withVal_frame σ src w _ (fun x => piece_frame σ d w _ h)
+  case partPiece d src sep r j => exact withVal_frame σ src w _ (fun x => piece_frame σ d w _ h)
+  case expandtabs d src k => exact withVal_frame σ src w _ (fun x => commit_frame σ d w _ h)
 
 /-- a failed operation (documented error) changes nothing at all -/
 theorem error_atomic (σ : Store) (op : Op) (e : PyErr) (h : (σ.step op).2 = .err e) :
@@ -115,6 +137,11 @@ theorem error_atomic (σ : Store) (op : Op) (e : PyErr) (h : (σ.step op).2 = .e
     split
     · exact cm d _
     · intro _; rfl
+  have pc : ∀ (d : Var) (o : Option AStr), (σ.piece d o).2 = .err e → (σ.piece d o).1 = σ := by
+    intro d o
+    cases o with
+    | some p => exact cm d p
+    | none => intro _; rfl
   cases op <;> simp only [Store.step] at h ⊢
   case new d s ss => exact fe d _ h
   case copy d src ss => exact wv src _ (fun x => fe d _) h
@@ -145,6 +172,23 @@ theorem error_atomic (σ : Store) (op : Op) (e : PyErr) (h : (σ.step op).2 = .e
   case find src a st en rev =>
     refine wv src _ (fun x => ?_) h
     split <;> intro _ <;> rfl
+  case zfill d src wd => exact wv src _ (fun x => cm d _) h
+  case clip d src a b => exact wv src _ (fun x => cm d _) h
+  case join d vs =>
+    revert h
+    split
+    · exact cm d _
+    · intro _; rfl
+  case fmatch v a spans count => exact wv v _ (fun x => fe v _) h
+  case unfmatch v a spans count => exact wv v _ (fun x => fe v _) h
+  case splitPiece d src sep m r j =>
+    refine wv src _ (fun x => ?_) h
+    split
+    · exact pc d _
+    · intro _; rfl
+  case linePiece d src ke j => exact wv src _ (fun x => pc d _) h
+  case partPiece d src sep r j => exact wv src _ (fun x => pc d _) h
+  case expandtabs d src k => exact wv src _ (fun x => cm d _) h
 
 /-- `a += b` and `a + b` compute the same value (the in-place form writes the receiver) -/
 theorem inplace_eq (σ : Store) (v u d : Var) (x y : AStr) (hx : σ.get? v = some x) (hy : σ.get? u = some y) :
@@ -156,6 +200,26 @@ theorem copy_eq (σ : Store) (d src : Var) (x : AStr) (hx : σ.get? src = some x
     ((σ.step (.copy d src [])).1).get? d = some x := by
   simp [Store.step, Store.withVal, hx, AStr.ofAStr, Store.fromExcept, Store.commit, get?_bump, get?_put_eq]
 
+/-- `x.clip a b` and `x[a:b]` compute the same value -/
+theorem clip_eq_slice (σ : Store) (d src : Var) (a b : Option Int) :
+    σ.step (.clip d src a b) = σ.step (.slice d src a b) := rfl
+
+/-- `x.zfill w` is `x.rjust w "0"` with the leading style extended -/
+theorem zfill_eq_rjust (σ : Store) (d src : Var) (w : Int) :
+    σ.step (.zfill d src w) = σ.step (.rjust d src w ['0'] true) := rfl
+
+/-- `AnsiString.join(x, y)` computes the value of `x + y` -/
+theorem join_pair_eq_add (σ : Store) (v u d : Var) (x y : AStr) (hx : σ.get? v = some x) (hy : σ.get? u = some y) :
+    ((σ.step (.join d [v, u])).1).get? d = ((σ.step (.add d v u)).1).get? d := by
+  simp [Store.step, Store.withVal, Store.getAll, hx, hy, AStr.join, Store.commit, get?_bump, get?_put_eq]
+
+/-- the loop of `fmatch` is the loop of `AStr.formatMatching`; only the numbering of the new objects
+    differs (from the store's counter on instead of from the value's own next identity) -/
+theorem formatMatchingFrom_zero (x : AStr) (a : SArg) (spans : List (Int × Int)) (count : Int) :
+    x.formatMatchingFrom 0 a spans count = x.formatMatching a spans count := by
+  unfold AStr.formatMatchingFrom AStr.formatMatching
+  simp only [Nat.zero_max]
+
 end Store
 
 /-- non-vacuity: a concrete store in which `v1` is sliced, the slice concatenated with itself and
@@ -165,3 +229,19 @@ example :
     let σ := Store.run σ0 [.slice 2 1 (some 1) (some 3), .iadd 2 2, .clear 2]
     σ.get? 1 = σ0.get? 1 ∧ (σ.get? 2).map (·.s) = some "bcbc".toList := by
   decide
+
+/-- the same for the operations added later: `v2 = join(v1, v1)`, `v2.format_matching(…)` on the
+    span (1,3), `v3 = v2.split("c")[1]`, `v4 = v3.zfill(5)`; `v1` is observed unchanged, and a failing
+    `format_matching` (a float as format) leaves the whole store as it was -/
+example :
+    let σ0 : Store := { vals := [(1, { s := "abcd".toList, fmts := [(0, { add := [⟨1, "31".toList⟩] }), (4, { rem := [⟨1, "31".toList⟩] })] })], nid := 2 }
+    let σ := Store.run σ0 [.join 2 [1, 1], .fmatch 2 (.int 4) [(1, 3)] (-1),
+      .splitPiece 3 2 (some "c".toList) (-1) false 1, .zfill 4 3 5]
+    σ.get? 1 = σ0.get? 1 ∧ (σ.get? 2).map (·.s) = some "abcdabcd".toList ∧
+      (σ.get? 3).map (·.s) = some "dab".toList ∧ (σ.get? 4).map (·.s) = some "00dab".toList ∧
+      (σ.step (.fmatch 2 (.bad true) [(1, 3)] (-1))).1.vals = σ.vals ∧
+      (1 : Var) ∉ (Op.fmatch 2 (.int 4) [(1, 3)] (-1)).writes ∧
+      (∀ x y, σ0.get? 1 = some x → σ0.get? 1 = some y →
+        ((σ0.step (.join 5 [1, 1])).1).get? 5 = ((σ0.step (.add 5 1 1)).1).get? 5) :=
+  ⟨by decide +kernel, by decide +kernel, by decide +kernel, by decide +kernel, by decide +kernel,
+   by decide, fun x y hx hy => Store.join_pair_eq_add _ 1 1 5 x y hx hy⟩
